@@ -156,6 +156,7 @@ where
                 }
             }
         }
+        self.rng = Some(rng);
         println!(
             "PRM: Roadmap constructed with {} milestones.",
             self.roadmap.len()
